@@ -813,7 +813,7 @@ theorem Version_parse (s : List Char) : Version.rs_parse s = Version.parse s := 
     cases versionP s with
     | ok v r => rfl
     | err e =>
-      simp only [bind, Except.bind, pure, Except.pure, throw, throwThe, MonadExceptOf.throw, Rust.ptr_diff, PErr.input,
+      simp only [bind, Except.bind, pure, Except.pure, throw, throwThe, MonadExceptOf.throw, Rust.ptr_diff, RPtrDiff.ptr_diff, PErr.input,
         PErr.finalKind, PErr.context]
       congr 2
       cases e.kind <;> cases e.ctx <;> rfl
@@ -828,7 +828,7 @@ theorem Range_parse (s : List Char) : Range.rs_parse s = Range.parse s := by
     have hr : e.rest = s := by
       rw [range_set_eq] at hg
       split at hg <;> cases hg; rfl
-    simp only [bind, Except.bind, pure, Except.pure, throw, throwThe, MonadExceptOf.throw, Rust.ptr_diff, PErr.input,
+    simp only [bind, Except.bind, pure, Except.pure, throw, throwThe, MonadExceptOf.throw, Rust.ptr_diff, RPtrDiff.ptr_diff, PErr.input,
       PErr.finalKind, PErr.context, hr]
     congr 2
     cases e.kind <;> cases e.ctx <;> rfl
